@@ -619,6 +619,13 @@ func (swallowArr) MarshalLogArray(e zapcore.ArrayEncoder) error {
 // user-supplied streaming one. Successive reflected values share the encoder's
 // reflection scratch state, which no single-value case exercises.
 func (d *Driver) ReflectSeqs(maxLen int) {
+	lists, alpha := ReflectSeqLists(maxLen)
+	d.reflectSeqs(lists, alpha)
+}
+
+// ReflectSeqLists returns every non-empty sequence of <= maxLen fields over the
+// reflected-value alphabet, and the alphabet.
+func ReflectSeqLists(maxLen int) ([][]*Spec, []*Spec) {
 	byName := map[string]*Spec{}
 	for _, s := range Leaves(true) {
 		byName[s.Name] = s
@@ -649,6 +656,10 @@ func (d *Driver) ReflectSeqs(maxLen int) {
 		}
 	}
 	rec(nil)
+	return lists, alpha
+}
+
+func (d *Driver) reflectSeqs(lists [][]*Spec, alpha []*Spec) {
 	e := DefaultEnt()
 	shards := 32
 	par.For(shards, func(sh int) {
